@@ -156,3 +156,81 @@ Definition bs_live_list (s : bs_st) : list N := elements (bs_live s).
    the new connection's FSM negotiates, then its read fails before the processor got to the
    SessionNegotiated message *)
 Definition bs_window_witness : list bs_ev := [BNegotiate; BTickErr 0].
+
+(* ---- the bgp-tcp-in unit's own metrics, as far as `Processor::process` moves them
+   (src/units/bgp_tcp_in/status_reporter.rs, metrics.rs; C15). The status reporter of a
+   session is a child of the unit's (`add_child`): all sessions of a unit share ONE
+   `BgpTcpInMetrics`, so a session starts from whatever the unit's counters are.
+     bgp_tcp_in_connection_lost_count   peer_connection_lost(socket), called in the
+                                        ConnectionLost arm for `Some(addr)` AND for `None`
+                                        (None = the PDU writer task of handle_connection could
+                                        not write to the peer; it does not know the address)
+     bgp_tcp_in_disconnect_count        disconnect(addr), called in the Terminated arm and in the
+                                        "this peer is no longer configured" arm when
+                                        session.connected_addr() is Some (it always is for a
+                                        session the loop still serves)
+   `listener_bound_count` / `connection_accepted_count` are moved by the accept loop of
+   unit.rs, not by the session; `established_session_count` is never written.
+   The counters are a second component next to [bs_st] (the arms of [bs_step] and the
+   status reporter calls sit in the same `match`; they do not read each other). ---- *)
+Record bs_met := MkMet { bm_lost : N; bm_disc : N }.
+
+Definition bm_step (m : bs_met) (e : bs_ev) : bs_met :=
+  match e with
+  | BMsgLost _ => MkMet (bm_lost m + 1) (bm_disc m)          (* both arms of the `if let Some(socket)` count *)
+  | BTerminate => MkMet (bm_lost m) (bm_disc m + 1)
+  | BReconf BRGone => MkMet (bm_lost m) (bm_disc m + 1)
+  | _ => m
+  end.
+
+(* the loop with the counters *)
+Fixpoint bsm_loop (id key : N) (s : bs_st) (m : bs_met) (evs : list bs_ev) : bs_st * bs_met * list bs_ev :=
+  match evs with
+  | [] => (s, m, [])
+  | e :: rest =>
+      let '(s', go) := bs_step id key s e in
+      if go then bsm_loop id key s' (bm_step m e) rest else (s', bm_step m e, rest)
+  end.
+
+(* the block after the loop touches no counter *)
+Definition bsm_process (id key : N) (live0 : gset N) (m0 : bs_met) (evs : list bs_ev) : bs_st * bs_met * list bs_ev :=
+  let '(s, m, rest) := bsm_loop id key (bs_init live0) m0 evs in (bs_cleanup id key s, m, rest).
+
+(* the events the loop handled: the script up to and including the one that ended it *)
+Fixpoint bs_taken (id key : N) (s : bs_st) (evs : list bs_ev) : list bs_ev :=
+  match evs with
+  | [] => []
+  | e :: rest =>
+      let '(s', go) := bs_step id key s e in
+      if go then e :: bs_taken id key s' rest else [e]
+  end.
+
+Definition bs_is_lost (e : bs_ev) : bool := match e with BMsgLost _ => true | _ => false end.
+Definition bs_is_disc (e : bs_ev) : bool := match e with BTerminate | BReconf BRGone => true | _ => false end.
+Definition bs_count (f : bs_ev -> bool) (evs : list bs_ev) : N := N.of_nat (length (List.filter f evs)).
+
+(* the sessions of one unit, one after the other, on the unit's shared counters (each with its
+   own live_sessions view: the counters do not depend on it) *)
+Fixpoint bsm_unit (id key : N) (m : bs_met) (sessions : list (gset N * list bs_ev)) : bs_met :=
+  match sessions with
+  | [] => m
+  | (live0, evs) :: rest => bsm_unit id key (bsm_process id key live0 m evs).1.2 rest
+  end.
+
+(* the loop of this session was left through the ConnectionLost arm *)
+Definition bs_ended_by_loss (id key : N) (live0 : gset N) (evs : list bs_ev) : bool :=
+  match last (bs_taken id key (bs_init live0) evs) with Some e => bs_is_lost e | None => false end.
+
+(* the seeded variant (C15-c2): `None` leaves peer_connection_lost before the counter *)
+Definition bm_step_early_return (m : bs_met) (e : bs_ev) : bs_met :=
+  match e with
+  | BMsgLost false => m
+  | _ => bm_step m e
+  end.
+Fixpoint bsm_loop_with (step : bs_met -> bs_ev -> bs_met) (id key : N) (s : bs_st) (m : bs_met) (evs : list bs_ev) : bs_met :=
+  match evs with
+  | [] => m
+  | e :: rest =>
+      let '(s', go) := bs_step id key s e in
+      if go then bsm_loop_with step id key s' (step m e) rest else step m e
+  end.
